@@ -342,4 +342,34 @@ SCENARIO(war3_mix) {
   run(w, unifex::when_all_range(std::move(v)));
 }
 
+// ---------------------------------------------------------------- stop_when (Proto/StopWhen.lean)
+// child 0 = source, child 1 = trigger.  The cancel_callback path signals the receiver while the callback
+// object is still alive (dequeued, executing on the signalling thread): shown as "cb-alive" in the history
+// and predicted by the model; a registration that is still pending, or a callback running on another
+// thread, is a monitor failure.
+static void sw_world(World& w) { w.n = 2; w.strict_regs = false; w.every_completion_stops = true; }
+
+SCENARIO(sw_stop) {
+  World w; sw_world(w); w.outs[0] = VAL; w.outs[1] = VAL; w.ext_stop = true;
+  run(w, unifex::stop_when(Leaf{&w, 0}, VoidLeaf{&w, 1}));
+  expect_values(w, {10});
+}
+SCENARIO(sw_trigger) {
+  World w; sw_world(w); w.inl[0] = true; w.outs[1] = VAL;
+  run(w, unifex::stop_when(Leaf{&w, 0}, VoidLeaf{&w, 1}));
+}
+SCENARIO(sw_src_err) {
+  World w; sw_world(w); w.outs[0] = ERR; w.inl[1] = true;
+  run(w, unifex::stop_when(Leaf{&w, 0}, VoidLeaf{&w, 1}));
+}
+SCENARIO(sw_stop_inl) {
+  World w; sw_world(w); w.inl[0] = true; w.inl[1] = true; w.ext_stop = true;
+  run(w, unifex::stop_when(Leaf{&w, 0}, VoidLeaf{&w, 1}));
+}
+SCENARIO(sw_mix) {
+  World w; sw_world(w); w.outs[0] = VAL; w.inl[1] = true; w.ext_stop = true;
+  run(w, unifex::stop_when(Leaf{&w, 0}, VoidLeaf{&w, 1}));
+  expect_values(w, {10});
+}
+
 RT_MAIN()
